@@ -1,6 +1,7 @@
 package e5
 
 import (
+	"sort"
 	"fmt"
 	"io"
 	"net"
@@ -105,6 +106,16 @@ func (f *FakeS3) handle(w http.ResponseWriter, r *http.Request) {
 		rec.Status = 500
 		fmt.Fprint(w, `<?xml version="1.0" encoding="UTF-8"?><Error><Code>InternalError</Code><Message>injected</Message></Error>`)
 		return
+	case "403":
+		// what S3 answers to a HEAD/GET when the credentials lack the permission to learn
+		// whether a key exists
+		w.Header().Set("Content-Type", "application/xml")
+		w.WriteHeader(403)
+		rec.Status = 403
+		if r.Method != http.MethodHead {
+			fmt.Fprint(w, `<?xml version="1.0" encoding="UTF-8"?><Error><Code>AccessDenied</Code><Message>injected</Message></Error>`)
+		}
+		return
 	case "404":
 		notFound()
 		return
@@ -161,6 +172,28 @@ func (f *FakeS3) Store(bucketPrefix string) map[string][]byte {
 		}
 	}
 	return out
+}
+
+// Expire removes up to n stored blobs ("/cas/" objects) chosen by pick, as a lifecycle rule
+// would; it returns the removed keys.
+func (f *FakeS3) Expire(n int, pick func(k int) int) []string {
+	f.mu.Lock()
+	defer f.mu.Unlock()
+	var ks []string
+	for k := range f.Objects {
+		if strings.Contains(k, "/cas/") {
+			ks = append(ks, k)
+		}
+	}
+	sort.Strings(ks)
+	var gone []string
+	for i := 0; i < n && len(ks) > 0; i++ {
+		j := pick(len(ks))
+		gone = append(gone, ks[j])
+		delete(f.Objects, ks[j])
+		ks = append(ks[:j], ks[j+1:]...)
+	}
+	return gone
 }
 
 func (f *FakeS3) Reset() {
